@@ -189,6 +189,7 @@ func TestC02Crash(t *testing.T) {
 		c.ClassIf(h.FinalizeInWrite > 0, "finalize_during_state_write")
 		c.ClassIf(h.ReleaseInSync > 0, "release_writer_inside_data_sync")
 		c.ClassIf(h.FaultsInjected > 0, "faults_injected")
+		c.ClassIf(h.FinalSyncFaults > 0, "final_shutdown_sync_fails_after_upload_acked_during_first_shutdown_sync")
 		c.ClassIf(w.St.BL.PopFronts > 0, "rotated")
 		if anyLostAfterCommit || betweenReleaseAndState {
 			c.NonTrivial()
